@@ -48,14 +48,14 @@ theorem step_sbo_needs_match (env : OEnv) (s : OState) (i : OInput) (o : OOut)
 
 /-- **C04.2 (rejection)**: an OPERATE that is not accepted actuates nothing: no callback of any kind is
     emitted, `select` is untouched, and the reply is the echo computed by `ctlAll none st none`, i.e. by the
-    branch of the loop that calls no handler and writes `withStatus obj st` for every object, where
-    `st ∈ {1, 2}` is the verdict (`operateVerdict_status`). -/
+    branch of the loop that calls no handler and writes `withStatus obj st` for every object that fits the
+    solicited buffer (D1 repaired: an echo that does not fit is truncated, not a panic), where
+    `st ∈ {1, 2}` is the verdict (`operateVerdict_status`); IIN2 is clean. -/
 theorem operate_rejected (a : Acc) (seq fid : Nat) (hs : List ObjHdr) (raw : List Nat) (st : Nat)
     (hall : hs.all isControlHdr = true) (hv : operateVerdict a.1 seq fid raw = some st) :
     handleControls a 4 seq fid hs raw =
-      if (rejectRun a st hs).overflow then none else
       some (({ a.1 with solBuf := writeAt a.1.solBuf 4 (rejectRun a st hs).out }, a.2),
-        some (singleResponse seq (if st = 4 then iin2ParamError else 0) (4 + (rejectRun a st hs).out.length))) :=
+        some (singleResponse seq 0 (4 + (rejectRun a st hs).out.length))) :=
   @Dnp3.Proofs.C04.operate_rejected a seq fid hs raw st hall hv
 
 /-- at the `handleNonRead` level: nothing is emitted and `select` is kept -/
